@@ -749,6 +749,12 @@ class FuncAnalysis:
                 self.ctx.resolved_calls += 1
                 return args[-1] if args else ("top", "identity()")
             head = tgt.split(".")
+            if tgt == "builtins.getattr" and len(args) >= 2 and not kws:
+                key = self._global_const(args[1])
+                if key[0] == "const" and isinstance(key[1], str):
+                    self.ctx.resolved_calls += 1
+                    got = self._attr_prop(args[0], key[1], depth)
+                    return got if len(args) == 2 else phi([got, args[2]])
             if head[0] == "ast" and len(head) == 2 and head[1] in AST_CLASSES:
                 self.ctx.resolved_calls += 1
                 return self._new(head[1], args, kws)
@@ -891,3 +897,7 @@ def _inside(n: ast.AST, root: ast.AST) -> bool:
 
 def _site(e: ast.AST) -> Tuple[int, int]:
     return (getattr(e, "lineno", 0), getattr(e, "col_offset", 0))
+
+
+def unphi_terms(t: Term) -> List[Term]:
+    return list(t[1]) if t[0] == "phi" else [t]
